@@ -372,8 +372,74 @@ static void netProbe(Rng &rng, CaseResult &r, uint64_t idx) {
   r.sig = std::string(kn[kind]) + ":" + (api == 0 ? "addNet" : "setNets") + ":" + fn[follow];
 }
 
+// A valid multi-net description (limits / cells / offsets / weights), corrupted in one randomly chosen way; every vector is
+// exactly sized so that ASan sees any read past its end during validation.
+static void netStructureProbe(Rng &rng, CaseResult &r) {
+  Circuit c0 = smallCircuit(rng);
+  int n = c0.nbCells();
+  int nets = (int)rng.range(1, 7);
+  std::vector<int> limits = {0}, cells, xo, yo;
+  std::vector<float> weights;
+  for (int k = 0; k < nets; ++k) {
+    int deg = (int)rng.range(0, 5);
+    for (int j = 0; j < deg; ++j) { cells.push_back((int)rng.range(0, n - 1)); xo.push_back((int)rng.range(-3, 9)); yo.push_back((int)rng.range(-3, 9)); }
+    limits.push_back((int)cells.size());
+    weights.push_back(rng.chance(0.5) ? 1.0f : (float)rng.unif(0.1, 4.0));
+  }
+  int pins = (int)cells.size();
+  int kind = (int)rng.range(0, 13);
+  std::string what;
+  int interior = nets >= 2 ? (int)rng.range(1, nets - 1) : -1;  // index of an interior limit
+  switch (kind) {
+    case 0: if (interior < 0) { kind = 4; limits.back() += 1; what = "last limit above the pin count"; break; }
+            limits[interior] = pins + (int)rng.range(1, 6); what = "interior limit above the pin count"; break;
+    case 1: if (interior < 0) { kind = 4; limits.back() += 1; what = "last limit above the pin count"; break; }
+            limits[interior] = (int)rng.pick(std::vector<int>{INT_MAX, 50000000, 1 << 20}); what = "huge interior limit"; break;
+    case 2: if (interior < 0) { kind = 5; limits[0] = 1; what = "first limit not zero"; break; }
+            limits[interior] = (int)rng.pick(std::vector<int>{-1, -7, INT_MIN}); what = "negative interior limit"; break;
+    case 3: if (interior < 0 || limits[interior] == 0 || limits[interior - 1] >= limits[interior]) { limits.back() -= 1; if (limits.back() < 0) limits.back() = 5; what = "last limit differs from the pin count"; break; }
+            limits[interior - 1] = limits[interior] + (int)rng.range(1, 3); what = "decreasing limits"; break;
+    case 4: limits.back() += (int)rng.range(1, 4); what = "last limit above the pin count"; break;
+    case 5: limits[0] = (int)rng.pick(std::vector<int>{1, -1, 2}); what = "first limit not zero"; break;
+    case 6: limits.clear(); what = "no limits at all"; break;
+    case 7: weights.push_back(1.0f); what = "one weight too many"; break;
+    case 8: if (weights.size() > 1) { weights.pop_back(); what = "one weight too few"; } else { weights.push_back(2.0f); what = "one weight too many"; } break;
+    case 9: xo.push_back(0); what = "x offsets longer than cells"; break;
+    case 10: if (pins > 0) { yo.pop_back(); what = "y offsets shorter than cells"; } else { yo.push_back(0); what = "y offsets longer than cells"; } break;
+    case 11: if (pins > 0) { cells[rng.range(0, pins - 1)] = (int)rng.pick(std::vector<int>{-1, n, n + 7, INT_MAX, INT_MIN}); what = "pin names a cell that does not exist"; } else { cells.push_back(0); what = "cells longer than the last limit"; } break;
+    case 12: cells.push_back(0); xo.push_back(0); yo.push_back(0); what = "one pin more than the last limit"; break;
+    default: limits.push_back(pins - 1 >= 0 ? pins - 1 : 3); what = "trailing limit below the pin count"; break;
+  }
+  limits.shrink_to_fit(); cells.shrink_to_fit(); xo.shrink_to_fit(); yo.shrink_to_fit(); weights.shrink_to_fit();
+  if (r.needSample()) r.sample = vf::J::obj().kv("probe", "corrupted net structure").kv("defect", what).kraw("limits", vf::jarr(limits)).kraw("cells", vf::jarr(cells)).kv("x_offsets", (int)xo.size()).kv("y_offsets", (int)yo.size()).kv("weights", (int)weights.size()).kv("circuit_cells", n).str();
+  if (r.dumpOnly) return;
+  Circuit c = c0;
+  bool refused = false;
+  try {
+    c.setNets(limits, cells, xo, yo, weights);
+  } catch (const std::exception &) {
+    refused = true;
+  } catch (...) {
+    r.fail("C19:non-std-exception", what);
+    refused = true;
+  }
+  if (refused) {
+    std::string fd = frameDiff(c0, c, true);
+    if (!fd.empty()) r.fail("C19:circuit-modified-by-refused-net", what + ": " + fd);
+    r.count("refused_at_the_setter");
+  } else {
+    r.count("accepted_by_the_setter");
+    bool threw = false;
+    try { c.check(); (void)c.hpwl(); } catch (const std::exception &) { threw = true; } catch (...) { r.fail("C19:non-std-exception", what); threw = true; }
+    if (!threw) r.fail("C19:malformed-net-never-refused", "setNets accepted a net structure with " + what + " and check()/hpwl() did not raise an error either");
+  }
+  r.nontrivial = true;
+  r.sig = what + ":n" + std::to_string(std::min(nets, 4));
+}
+
 int main(int argc, char **argv) {
   std::vector<vf::Part> parts;
+  parts.push_back({"c19.nets.structure", [](uint64_t, Rng &rng, CaseResult &r) { netStructureProbe(rng, r); }, 30});
   parts.push_back({"c19.effort.window", [](uint64_t idx, Rng &, CaseResult &r) { effortProbe((int)idx - 16, r); }, 30});
   parts.push_back({"c19.effort.random", [](uint64_t idx, Rng &rng, CaseResult &r) {
                      int e;
